@@ -14,7 +14,8 @@ class NpArr:
         self.name, self.data_obj, self.dims, self.strides = name, data_obj, dims, strides
 
 
-def add_ext_obligations(ck, lmax=3):
+def add_ext_obligations(ck, lmax=3, data_clauses=True):
+    """data_clauses=False leaves out the clauses about the sample data pointer (properties about counters do not depend on them)"""
     path = os.path.join(cfront.REPO, "python/lib/py_rf_write_hdf5.c")
     tu = cfront.TU(path, extra_inc=["-I" + sysconfig.get_paths()["include"], "-I" + numpy.get_include()])
     X = cext.make_externals()
@@ -159,9 +160,12 @@ def add_ext_obligations(ck, lmax=3):
                 post(it, s, "x.block_write.returns_cursor", Z(bv[-1].args[1]) == Z(s.mem[wptr.obj].fields["global_index"]), fn["_line"], meta=meta)
             if calls[0].name == "digital_rf_write_blocks_hdf5":
                 a = calls[0].args
-                okp = len(calls) == 1 and isinstance(a[1], Ptr) and a[1].obj == og and isinstance(a[2], Ptr) and a[2].obj == ob and isinstance(a[4], Ptr) and a[4].obj == data \
-                    and all(is_conc(p.idx) and p.idx == 0 for p in (a[1], a[2], a[4]))
-                ck.struct("x.block_write.passes_arrays_unchanged", okp, "gapped path must hand the three arrays to digital_rf_write_blocks_hdf5 unchanged", {"attr": "L=%d" % L})
+                okp = len(calls) == 1 and isinstance(a[1], Ptr) and a[1].obj == og and isinstance(a[2], Ptr) and a[2].obj == ob \
+                    and all(is_conc(p.idx) and p.idx == 0 for p in (a[1], a[2]))
+                ck.struct("x.block_write.passes_index_arrays_unchanged", okp, "gapped path must hand the two index arrays to digital_rf_write_blocks_hdf5 unchanged", {"attr": "L=%d" % L})
+                if data_clauses:
+                    okd = isinstance(a[4], Ptr) and a[4].obj == data and is_conc(a[4].idx) and a[4].idx == 0
+                    ck.struct("x.block_write.passes_data_unchanged", okd, "gapped path must hand the data array to digital_rf_write_blocks_hdf5 unchanged", {"attr": "L=%d" % L})
                 post(it, s, "x.block_write.passes_lengths", z3.And(Z(a[3]) == L, Z(a[5]) == V), fn["_line"], meta=meta)
                 post(it, s, "x.block_write.gapped_path_condition", z3.Or(Z(wf["is_continuous"]) == 0, L <= 1), fn["_line"], meta=meta)
             else:
@@ -171,12 +175,13 @@ def add_ext_obligations(ck, lmax=3):
                 for i, e in enumerate(calls[:L]):
                     a = e.args
                     nxt = z3.Select(b, i + 1) if i + 1 < L else V
-                    okd = isinstance(a[2], Ptr) and a[2].obj == data
-                    ck.struct("x.block_write.split_data_base", okd, "per-block data pointer must point into the caller's array", {"attr": "L=%d i=%d" % (L, i)})
-                    if okd:
-                        post(it, s, "x.block_write.split_call_args",
-                                  z3.And(Z(a[1]) == z3.Select(g, i), Z(a[2].idx) == z3.Select(b, i) * (item * nsub), Z(a[3]) == nxt - z3.Select(b, i)),
-                                  fn["_line"], meta=dict(meta, block=i))
+                    post(it, s, "x.block_write.split_call_index_and_length", z3.And(Z(a[1]) == z3.Select(g, i), Z(a[3]) == nxt - z3.Select(b, i)),
+                         fn["_line"], meta=dict(meta, block=i))
+                    if data_clauses:
+                        okd = isinstance(a[2], Ptr) and a[2].obj == data
+                        ck.struct("x.block_write.split_data_base", okd, "per-block data pointer must point into the caller's array", {"attr": "L=%d i=%d" % (L, i)})
+                        if okd:
+                            post(it, s, "x.block_write.split_call_data", Z(a[2].idx) == z3.Select(b, i) * (item * nsub), fn["_line"], meta=dict(meta, block=i))
         for o in it.obls:
             o.bounded = "<= %d blocks per call (all values symbolic)" % lmax
         ck.add([o for o in it.obls if o.kind in ("post", "pre")])
@@ -195,7 +200,9 @@ def add_ext_obligations(ck, lmax=3):
             continue
         a = calls[0].args
         okd = isinstance(a[2], Ptr) and a[2].obj == data and is_conc(a[2].idx) and a[2].idx == 0
-        ck.struct("x.write.passes_data", okd and len(calls) == 1, "rf_write must pass the array's data pointer to digital_rf_write_hdf5 once", {})
+        ck.struct("x.write.calls_once", len(calls) == 1, "rf_write must call digital_rf_write_hdf5 once", {})
+        if data_clauses:
+            ck.struct("x.write.passes_data", okd, "rf_write must pass the array's data pointer to digital_rf_write_hdf5", {})
         post(it, s, "x.write.passes_index_and_length", z3.And(Z(a[1]) == ns, Z(a[3]) == V), fn["_line"])
         if calls[0].info.get("fail"):
             post(it, s, "x.write.error_reported", B(it.isnull(rv)) if isinstance(rv, Ptr) else False, fn["_line"])
